@@ -94,6 +94,13 @@ func TestVerifC12Csidh(t *testing.T) {
 		if alias == kit.AliasXY || alias == kit.AliasAll {
 			yv, yc = xv, xc
 		}
+		// a quarter of the arithmetic cases: operands solved so that the RESULT is a drawn edge word
+		if top := map[string]string{"addRdc": "Add", "subRdc": "Sub", "mulRdc": "Mul"}[op]; top != "" &&
+			(alias == kit.AliasNone || alias == kit.AliasZX || alias == kit.AliasZY) && rapid.IntRange(0, 3).Draw(t, "targeted") == 0 {
+			if tx, ty, tc, ok := f.Targeted(t, top, R, "tg"); ok {
+				xv, yv, xc, yc = tx, ty, tc, tc
+			}
+		}
 		w64 := vlib.Limbs(t, 1, 1, "w64").Uint64()
 		sel := uint8(rapid.IntRange(0, 1).Draw(t, "sel"))
 		x0, y0, junk := c12From(xv), c12From(yv), c12From(jv)
